@@ -152,7 +152,9 @@ class Runner:
                 raise Fail()
             model[k] = v
         elif op == "set_nonbytes":
-            v = rng.choice([1, "s", None, [b"x"], 2.5])
+            import array as _array
+            v = rng.choice([1, "s", None, [b"x"], 2.5, _array.array("d", [1.5, -2.0]), _array.array("I", [1, 2]),
+                            (b"t",), {b"k": b"v"}])
             self.trace.append(["set-nonbytes", k.hex(), repr(v)])
             acc.count("refusals.nonbytes")
             try:
@@ -369,7 +371,8 @@ def replay(case, acc, ctx):
                 model[bytes.fromhex(op[1])] = bytes.fromhex(op[2])
             elif kind == "set-nonbytes":
                 try:
-                    d[bytes.fromhex(op[1])] = ast.literal_eval(op[2])
+                    import array  # noqa: the recorded repr may be an array('d', [...])
+                    d[bytes.fromhex(op[1])] = eval(op[2], {"array": array.array, "__builtins__": {}})
                     return diverged(step, "non-bytes value accepted")
                 except TypeError:
                     pass
